@@ -67,16 +67,18 @@ FoldFrom(xs, i, acc, lg, k, monad) ==
   IF i > Len(xs) THEN WithLog(Ok(acc), lg)
   ELSE LET r == Norm(monad, Cont(k.c, acc \o <<xs[i]>>)) IN
        IF ~r.ok THEN WithLog(r, Append(lg, k.id)) ELSE FoldFrom(xs, i + 1, r.v, Append(lg, k.id), k, monad)
-\* ApFunc / builder steps.  A "val" step is a ready value: the caller evaluated its program when it built the step,
-\* whatever happened before.  A "sup" step is a supplier: a callback the library calls only if nothing has failed yet.
+\* ApFunc / builder steps.  A "val" step is a ready value (ApTry / ApOption / ApFuture): the caller evaluated its program
+\* when it built the step, whatever happened before; "pure" is a plain value (Ap).  A "sup" step is a supplier
+\* (ApTryFunc / ApOptionFunc / ApFutureFunc), "func" a supplier of a plain value (ApFunc): callbacks the library calls only
+\* if nothing has failed yet - and then exactly once.
 \* bad = the first failure so far (or NoFail).
 NoFail == [ok |-> TRUE, v |-> <<>>, e |-> "-"]
 SuppFrom(steps, i, acc, lg, bad, monad) ==
   IF i > Len(steps) THEN (IF bad.ok THEN WithLog(Ok(acc), lg) ELSE WithLog(bad, lg))
   ELSE LET st == steps[i] IN
-       IF st.t = "sup" /\ ~bad.ok THEN SuppFrom(steps, i + 1, acc, lg, bad, monad)          \* never invoked
+       IF st.t \in {"sup", "func"} /\ ~bad.ok THEN SuppFrom(steps, i + 1, acc, lg, bad, monad)          \* never invoked
        ELSE LET r == Eval(st.p, monad)
-                lg2 == IF st.t = "sup" THEN Append(lg, st.id) \o r.log ELSE lg \o r.log
+                lg2 == IF st.t \in {"sup", "func"} THEN Append(lg, st.id) \o r.log ELSE lg \o r.log
                 bad2 == IF bad.ok /\ ~r.ok THEN [ok |-> FALSE, v |-> <<>>, e |-> r.e] ELSE bad
             IN SuppFrom(steps, i + 1, acc \o r.v, lg2, bad2, monad)
 
